@@ -228,21 +228,33 @@ def xy_tables(gappy=False):
     return X, Y, idx
 
 
-def xy_trace(X, Y, transformer, t_end, window, upto):
+def xy_rate(idx, cut=None):
+    """sparse fixings; with `cut`, every fixing dated after idx[cut] is replaced"""
+    import pandas as pd
+    r = pd.Series([0.02, 0.03, 0.04, 0.05], index=idx[[2, 6, 9, 12]], name="rf")
+    if cut is not None:
+        r = r.copy()
+        r[r.index > idx[cut]] = 0.2
+    return r
+
+
+def xy_trace(X, Y, transformer, t_end, window, upto, rate=None):
     """Trace of (date, obs bytes, reward, holdings, nlv) up to the step landing on `upto`."""
     import pandas as pd
     from tradingenv.env import TradingEnvXY
     reset_clock()
-    env = TradingEnvXY(X.copy(), Y.copy(), transformer=transformer, transformer_end=t_end, window=window, spread=0.002)
+    env = TradingEnvXY(X.copy(), Y.copy(), transformer=transformer, transformer_end=t_end, window=window, spread=0.002,
+                       rate=None if rate is None else rate.copy())
     out = []
     o = env.reset()
-    out.append((str(env.now()), o.tobytes(), None))
+    rbook = lambda: hx(env.exchange[env._broker_fees.interest_rate].mid_price)
+    out.append((str(env.now()), o.tobytes(), None, rbook()))
     k = 0
     while not env._done and env.now() < upto:
         o, r, d, info = env.step(np.array([0.5, -0.25]) if k % 2 == 0 else np.array([-0.5, 1.0]))
         b = env.broker
         out.append((str(env.now()), o.tobytes(), hx(r), tuple(sorted((str(c), hx(v)) for c, v in b.holdings_quantity.items())),
-                    hx(b.net_liquidation_value(False))))
+                    hx(b.net_liquidation_value(False)), rbook()))
         k += 1
     return [e for e in out if pd.Timestamp(e[0]) <= upto]
 
@@ -312,6 +324,22 @@ def _xy_work(chunk):
             out["violations"].append(({"part": "xy", "transformer": transformer, "window": window, "te": te, "cut": cut, "pattern": None, "gappy": gappy},
                                       "unperturbed tabular run raised %r" % (ex,), ("xy-base", transformer)))
             continue
+        # the rate table: fixings dated after the cut are altered
+        if window == 1:
+            try:
+                rb = xy_trace(X, Y, transformer, idx[te], window, idx[cut], xy_rate(idx))
+                rp = xy_trace(X, Y, transformer, idx[te], window, idx[cut], xy_rate(idx, cut))
+                out["evaluations"] += 1
+                out["nontrivial"] += 1
+                if rb != rp:
+                    i = next((i for i, (a, b) in enumerate(zip(rp, rb)) if a != b), min(len(rp), len(rb)))
+                    out["violations"].append(({"part": "xy", "transformer": transformer, "window": window, "te": te, "cut": cut, "pattern": "rate",
+                                               "gappy": gappy, "tier": tier},
+                                              "altering interest-rate fixings dated after %s changed the output at %s"
+                                              % (idx[cut].date(), rb[i][0] if i < len(rb) else "length"), ("xy-rate", transformer)))
+            except Exception as ex:
+                out["violations"].append(({"part": "xy", "transformer": transformer, "window": window, "te": te, "cut": cut, "pattern": "rate",
+                                           "gappy": gappy, "tier": tier}, "tabular run with a rate series raised %r" % (ex,), ("xy-rate-exc", transformer)))
         for pat in perturbations(tier, len(idx) - 1 - cut):
             X2, Y2 = apply_pattern(X, Y, idx, cut, pat)
             case = {"part": "xy", "transformer": transformer, "window": window, "te": te, "cut": cut, "gappy": gappy,
@@ -397,6 +425,10 @@ def replay(case, **kw):
     base = xy_trace(X, Y, case["transformer"], idx[case["te"]], case["window"], idx[case["cut"]])
     if case["pattern"] is None:
         return []
+    if case["pattern"] == "rate":
+        rb = xy_trace(X, Y, case["transformer"], idx[case["te"]], case["window"], idx[case["cut"]], xy_rate(idx))
+        rp = xy_trace(X, Y, case["transformer"], idx[case["te"]], case["window"], idx[case["cut"]], xy_rate(idx, case["cut"]))
+        return [] if rb == rp else ["outputs up to the cut differ after altering later interest-rate fixings"]
     pat = case["pattern"] if isinstance(case["pattern"], str) else tuple(tuple(r) for r in case["pattern"])
     X2, Y2 = apply_pattern(X, Y, idx, case["cut"], pat)
     try:
